@@ -264,7 +264,13 @@ func init() {
 			Cost: schema.FieldResolverCost(0),
 			Resolve: func(ctx schema.FieldContext) (interface{}, error) {
 				if t, ok := ctx.Object.(*schema.ObjectType); ok {
-					return t.ImplementedInterfaces, nil
+					ret := make([]*schema.InterfaceType, 0, len(t.ImplementedInterfaces))
+					for _, iface := range t.ImplementedInterfaces {
+						if iface.RequiredFeatures.IsSubsetOf(ctx.Features) {
+							ret = append(ret, iface)
+						}
+					}
+					return ret, nil
 				}
 				return nil, nil
 			},
@@ -275,7 +281,14 @@ func init() {
 			Resolve: func(ctx schema.FieldContext) (interface{}, error) {
 				switch t := ctx.Object.(type) {
 				case *schema.InterfaceType:
-					return ctx.Schema.InterfaceImplementations(t.Name), nil
+					implementations := ctx.Schema.InterfaceImplementations(t.Name)
+					ret := make([]*schema.ObjectType, 0, len(implementations))
+					for _, obj := range implementations {
+						if obj.RequiredFeatures.IsSubsetOf(ctx.Features) {
+							ret = append(ret, obj)
+						}
+					}
+					return ret, nil
 				case *schema.UnionType:
 					return t.MemberTypes, nil
 				default:
